@@ -121,6 +121,7 @@ pub struct Monitors {
     first_list_answered: bool,
     changed_after_list: bool,
     poll_outstanding: bool,
+    poisoned: BTreeMap<[u8; 32], String>,
     grid_at_restart: u64,
     todo_panics: u32,
     pub stale_heights: u32,
@@ -164,6 +165,7 @@ impl Monitors {
             first_list_answered: false,
             changed_after_list: false,
             poll_outstanding: false,
+            poisoned: BTreeMap::new(),
             grid_at_restart: 0,
             todo_panics: 0,
             stale_heights: 0,
@@ -577,7 +579,17 @@ impl Monitors {
                             s.node.parts.iter().filter(|p| p.hash == hash).map(|p| (p.uid, p.status)).collect::<Vec<_>>(),
                             Self::pay_running_for(s, &hash)
                         );
-                        self.v("C02", "fail_while_live", d, json!({"failure": resp["failure_message"], "injected_fault": ctx}));
+                        // Consequences of one root cause are keyed to it: once an RPC error inside wait_payment
+                        // (after pay) made the plugin give up a payment whose parts were live, the record is Free
+                        // although parts exist, and later HTLCs of that hash are judged against that wrong record.
+                        let sig = match self.poisoned.get(&hash) {
+                            Some(root) => json!({"downstream_of": root}),
+                            None => json!({"failure": resp["failure_message"], "injected_fault": ctx}),
+                        };
+                        if ctx.ends_with(":after_pay") && !self.poisoned.contains_key(&hash) {
+                            self.poisoned.insert(hash, ctx.clone());
+                        }
+                        self.v("C02", "fail_while_live", d, sig);
                     }
                     // ---- C03 clause 3: counted HTLCs stay held until the fate is known
                     let t = self.tracks.entry(hash).or_default();
@@ -770,7 +782,15 @@ impl Monitors {
                     if let Some(h) = hash {
                         let code = reply["error"]["code"].as_i64().unwrap_or(0);
                         let _ = code;
-                        let d = if method == "datastore" { format!("write_fault:{}", if *applied { "applied_but_error" } else { "rejected" }) } else { format!("read_fault:{method}") };
+                        let after_pay = self.tracks.get(h).map(|t| t.lc.pay_issued).unwrap_or(false);
+                        let d = if method == "datastore" {
+                            format!("write_fault:{}", if *applied { "applied_but_error" } else { "rejected" })
+                        } else if method == "listdatastore" {
+                            format!("read_fault:{method}")
+                        } else {
+                            // call site: inside wait_payment after this lifecycle's pay, or on the restart path before any pay
+                            format!("read_fault:{method}:{}", if after_pay { "after_pay" } else { "restart_path" })
+                        };
                         self.fault_ctx.insert(*h, d);
                         if let Some(t) = self.tracks.get_mut(h) {
                             t.lc.tainted = true;
@@ -971,7 +991,7 @@ impl Monitors {
             self.v(
                 "C09",
                 "hash_permanently_unpayable",
-                format!("probe {idx} (round {round}): fully funded set with cooperative recipient answered {resp:?}; the stored image did not change, so every retry fails the same way"),
+                format!("probe {idx} ({}): fully funded set with cooperative recipient answered {resp:?}; the stored image did not change, so every retry fails the same way", if round == 100 { "same process, no restart".to_string() } else { format!("fresh lifetime, round {round}") }),
                 json!({"answer": resp}),
             );
         }
